@@ -180,4 +180,9 @@ def c16(tier, seed):
     return r
 
 
-CHECKS = {"C01": c01, "C03": c03, "C04": c04, "C05": c05, "C06": c06, "C07": c07, "C13": c13, "C16": c16}
+def c09(tier, seed):
+    import c09 as m
+    return m.check(tier, seed)
+
+
+CHECKS = {"C09": c09, "C01": c01, "C03": c03, "C04": c04, "C05": c05, "C06": c06, "C07": c07, "C13": c13, "C16": c16}
